@@ -43,6 +43,9 @@ ATLAS_Q = [
     # declaration the call must keep being refused, whatever was imported or translated before)
     ("a_jet_dphi_user", [["SelectMany", f"lambda e: {JETS}"], ["Select", "lambda j: deltaPhi(j.phi(), 0.0)"]]),
     ("a_jet_dr_user", [["SelectMany", f"lambda e: {JETS}"], ["Select", "lambda j: deltaR(j.eta(), j.phi(), 0.0, 0.0)"]]),
+    # the elements of a collection returned by a method reach the output: their declared type matters
+    ("a_jet_cvals_out", [["Select", f"lambda e: {JETS}.Select(lambda j: j.cvals())"]]),
+    ("a_jet_cvals_sum", [["SelectMany", f"lambda e: {JETS}"], ["Select", "lambda j: j.cvals().Sum()"]]),
     ("a_jet_constituents", [["SelectMany", f"lambda e: {JETS}"], ["Select", "lambda j: j.cvals().Count()"]]),
     ("a_forkjets", [["SelectMany", 'lambda e: e.ForkJets("Fork")'], ["Select", "lambda j: j.pt()"]]),
     ("a_jet_aggregate", [["Select", f"lambda e: {JETS}.Select(lambda j: j.pt()).Aggregate(0.0, lambda acc, v: acc + v)"]]),
@@ -169,6 +172,10 @@ METADATA = {
     "jet_ntrk_int": (_mt("xAOD::Jet", "nTrk", return_type="int"), ["atlas"]),
     "recomu_charge_int": (_mt("reco::Muon", "charge", return_type="int"), ["cms_aod"]),
     "patmu_charge_int": (_mt("pat::Muon", "charge", return_type="int"), ["cms_miniaod"]),
+    # one collection type name with different element types (and on another method)
+    "jet_cvals_coll_float": (_mt("xAOD::Jet", "cvals", return_type_element="float", return_type_collection="MyVec*"), ["atlas"]),
+    "jet_cvals_coll_ptr": (_mt("xAOD::Jet", "cvals", return_type_element="double*", return_type_collection="MyVec*"), ["atlas"]),
+    "jet_ivals_coll_int": (_mt("xAOD::Jet", "ivals", return_type_element="int", return_type_collection="MyVec*"), ["atlas"]),
     # retyping methods that have *default* declarations
     "truth_prodvtx_double": (_mt("xAOD::TruthParticle", "prodVtx", return_type="double"), ["atlas"]),
     "truth_parent_deref": (_mt("xAOD::TruthParticle", "parent", return_type="xAOD::TruthParticle**", deref_count=1), ["atlas"]),
@@ -253,6 +260,8 @@ NEEDS = {
     "a_jet_userfunc": ["fn_scale"],
     "c_mu_userfunc": ["fn_scale"],
     "a_jet_constituents": ["jet_cvals"],
+    "a_jet_cvals_out": ["jet_cvals_coll"],
+    "a_jet_cvals_sum": ["jet_cvals_coll"],
     "a_jet_abs_int": ["jet_ntrk_int"],
     "c_mu_abs_int": ["recomu_charge_int"],
     "m_mu_abs_int": ["patmu_charge_int"],
@@ -282,6 +291,7 @@ VARIANTS = {
     "jet_color_enum": ["jet_color_bool"],
     "fn_scale": ["fn_scale_int"],
     "jet_cvals": ["jet_cvals_coll"],
+    "jet_cvals_coll": ["jet_cvals_coll_float", "jet_cvals_coll_ptr", "jet_cvals"],
     "patmu_besttrack_recotrack": ["patmu_globaltrack_int"],
     "recomu_innertrack_trackref": ["recomu_globaltrack_int"],
 }
